@@ -127,9 +127,29 @@ def s_opt_unwrap_or(eng, path, argv, callee):
     return const_obj(z3.If(o.disc() == 1, some.scalar(), d.scalar()))
 
 
+MAX_TS_SECONDS = (2 ** 64 - 1) // 1_000_000_000   # a Timestamp holds u64 nanoseconds
+
+
 def s_seconds(eng, path, argv, callee):
-    # Timestamp is abstracted to whole seconds: seconds(from_seconds(s)) = s
-    return const_obj(path.deref(argv[0]).scalar())
+    # Timestamp is abstracted to whole seconds: seconds(from_seconds(s)) = s; a stored Timestamp never exceeds u64 nanoseconds
+    v = path.deref(argv[0]).scalar()
+    c = v <= MAX_TS_SECONDS
+    if not any(c.eq(x) for x in path.cond):
+        path.cond.append(c)
+    return const_obj(v)
+
+
+def s_from_seconds(eng, path, argv, callee):
+    # cosmwasm-std 1.5.9: Timestamp(Uint64::new(seconds * 1_000_000_000)) - plain u64 multiplication, panics on overflow
+    v = path.deref(argv[0]).scalar()
+    bad = v > MAX_TS_SECONDS
+    if eng.feasible(path.cond + [bad]):
+        p2 = path.fork()
+        p2.cond.append(bad)
+        p2.outcome = ('panic', 'Timestamp::from_seconds: attempt to multiply with overflow')
+        eng.done.append(p2)
+    path.cond.append(z3.Not(bad))
+    return const_obj(v)
 
 
 def s_addr_eq(eng, path, argv, callee):
@@ -319,7 +339,8 @@ BASE = [
     (r'Option::<.*>::unwrap$', s_opt_unwrap),
     (r'Result::<.*>::unwrap$', s_res_unwrap),
     (r'Option::<.*>::unwrap_or$', s_opt_unwrap_or),
-    (r'Timestamp::seconds$|Timestamp::from_seconds$', s_seconds),
+    (r'Timestamp::seconds$', s_seconds),
+    (r'Timestamp::from_seconds$', s_from_seconds),
     (r'<Addr as PartialEq>::eq$|<Addr as PartialEq<.*>>::eq$', s_addr_eq),
     (r'<Addr as PartialEq>::ne$|<Addr as PartialEq<.*>>::ne$', s_addr_ne),
     (r'<BatchStatus as PartialEq>::eq$', s_enum_eq),
